@@ -24,16 +24,6 @@ CONSTANTS
  DisconnectEvicts = TRUE
  Standard = FALSE
  Script <- U_Script
- TxWeight <- U_TxWeight
- TxSigCost <- U_TxSigCost
- Policies <- U_Policies
- Variants <- U_Variants
- CbWeight <- U_CbWeight
- H0 = 2
- HardDiff = FALSE
- CommitWeight = 224
 INIT Init
 NEXT Next
 INVARIANT Inv
-INVARIANT AlgoSound
-INVARIANT AlgoComplete
